@@ -305,9 +305,10 @@ func cmdMutSurvey(args []string) int {
 	verif := fs.String("verif", "", "")
 	par := fs.Int("par", 10, "")
 	out := fs.String("out", "", "jsonl output (appended; finished mutants are skipped)")
+	retest := fs.String("retest", "", "re-evaluate only the survivors listed in this jsonl (output of mutsurvey or tools/mut_vs_tests.py)")
 	fs.Parse(args)
 	self, _ := os.Executable()
-	if err := sweep.Survey(self, *repo, verifDir(*verif), strings.Split(*props, ","), *only, *par, *out); err != nil {
+	if err := sweep.Survey(self, *repo, verifDir(*verif), strings.Split(*props, ","), *only, *par, *out, *retest); err != nil {
 		fmt.Fprintln(os.Stderr, err)
 		return 1
 	}
